@@ -17,6 +17,7 @@ import random
 import re
 import subprocess
 import sys
+import tempfile
 import time
 
 VERIF = os.path.dirname(os.path.dirname(os.path.abspath(__file__)))
@@ -184,15 +185,18 @@ class Ctx:
                 rel = os.path.join("Corr", "run_" + self.pid, name + ".v")
                 with open(os.path.join(COQ, rel), "w") as f:
                     f.write(text)
+                fo = tempfile.TemporaryFile(mode="w+")
                 p = subprocess.Popen(["timeout", str(timeout), "coqc", "-Q", ".", "RV", rel], cwd=COQ,
-                                     stdout=subprocess.PIPE, stderr=subprocess.STDOUT, text=True)
-                running.append((name, p))
+                                     stdout=fo, stderr=subprocess.STDOUT, text=True)
+                running.append((name, p, fo))
             still = []
-            for name, p in running:
+            for name, p, fo in running:
                 if p.poll() is None:
-                    still.append((name, p))
+                    still.append((name, p, fo))
                 else:
-                    res[name] = (p.returncode, p.stdout.read())
+                    fo.seek(0)
+                    res[name] = (p.returncode, fo.read())
+                    fo.close()
             running = still
             if running:
                 time.sleep(0.2)
@@ -224,11 +228,13 @@ class Ctx:
         while pending or running:
             while pending and len(running) < par:
                 i, pl = pending.pop(0)
-                p = subprocess.Popen([IMPL_PY, path], cwd="/", env=env, stdin=subprocess.PIPE,
-                                     stdout=subprocess.PIPE, stderr=subprocess.STDOUT, text=True)
-                p.stdin.write(json.dumps(pl))
-                p.stdin.close()
-                running.append((i, p, []))
+                fo = tempfile.TemporaryFile(mode="w+")
+                fi = tempfile.TemporaryFile(mode="w+")
+                fi.write(json.dumps(pl))
+                fi.seek(0)
+                p = subprocess.Popen([IMPL_PY, path], cwd="/", env=env, stdin=fi,
+                                     stdout=fo, stderr=subprocess.STDOUT, text=True)
+                running.append((i, p, (fo, fi)))
             still = []
             for i, p, buf in running:
                 if p.poll() is None:
@@ -238,7 +244,10 @@ class Ctx:
                     else:
                         still.append((i, p, buf))
                 else:
-                    txt = p.stdout.read()
+                    buf[0].seek(0)
+                    txt = buf[0].read()
+                    buf[0].close()
+                    buf[1].close()
                     res = None
                     for line in txt.splitlines():
                         if line.startswith("RESULT "):
